@@ -168,6 +168,18 @@ def concrete_replay(build, cfg, model_values):
     return bad, info
 
 
+def generic_replay(build, cfg, seed):
+    """exact-rational re-run at a generic seeded point; a point that happens to be singular for the exact run (a denominator
+    vanishes there) is replaced by the next one"""
+    last = None
+    for k in range(5):
+        try:
+            return concrete_replay(build, dict(cfg, seed=seed + k), {})
+        except (ZeroDivisionError, ArithmeticError) as e:
+            last = e
+    raise last
+
+
 def handle(run, results, build, what='entries differ from the oracle', signature=None):
     for res in results:
         if res.get('error'):
@@ -239,7 +251,7 @@ def handle(run, results, build, what='entries differ from the oracle', signature
                 bad = []        # the solver's point is singular for the exact run (a denominator vanishes / an attribute is 0 there)
             if not bad:
                 # the solver's point may sit on a special locus for the exact atoms: try a generic seeded point
-                bad, info = concrete_replay(build, dict(cfg, seed=run.seed + 1), {})
+                bad, info = generic_replay(build, cfg, run.seed + 1)
         except Exception as e:
             run.harness_error('replay of %s crashed: %s: %s' % (res['group'], type(e).__name__, e))
             continue
@@ -256,7 +268,7 @@ def handle(run, results, build, what='entries differ from the oracle', signature
                 # the point of the FIRST sat obligation may be a special one for this family: the generic seeded point decides
                 if generic is None:
                     try:
-                        generic = concrete_replay(build, dict(cfg, seed=run.seed + 1), {})
+                        generic = generic_replay(build, cfg, run.seed + 1)
                     except Exception:
                         generic = ([], info)
                 fbad = [b for b in generic[0] if b[0].split('[')[0] == fam]
